@@ -326,6 +326,7 @@ func UpdateJobStatusFromTaskRefs(rj *execution.Job) (*execution.Job, error) {
 				Result:                  execution.JobResultKilled,
 			},
 		}
+		newRj.Status.State = getJobStateFromCondition(newRj.Status.Condition)
 	}
 
 	// Set phase based on computed status so far.
